@@ -95,6 +95,14 @@ def set_polya_requirement_strategy(flag, polya_requirement_strategy):
 
 
 def collect_reads_in_parallel(sample, chr_id, args):
+    result = collect_reads_for_chromosome(sample, chr_id, args)
+    # the lock tells a resumed run that the files of this chromosome are complete:
+    # it is written only when the call above has returned and all of them are closed
+    open(reads_collected_lock_file_name(sample.out_raw_file, chr_id), "w").close()
+    return result
+
+
+def collect_reads_for_chromosome(sample, chr_id, args):
     current_chr_record = Fasta(args.reference, indexname=args.fai_file_name, sequence_always_upper=True)[chr_id]
     if args.high_memory:
         current_chr_record = str(current_chr_record)
@@ -149,7 +157,6 @@ def collect_reads_in_parallel(sample, chr_id, args):
     alignment_collector.alignment_stat_counter.dump(bamstat_file)
 
     logger.info("Finished processing chromosome " + chr_id)
-    open(lock_file, "w").close()
     for bam in bam_file_pairs:
         bam[0].close()
 
@@ -220,6 +227,13 @@ class BasicReadAssignmentLoader:
 
 
 def construct_models_in_parallel(sample, chr_id, dump_filename, args, read_groups):
+    result = construct_models_for_chromosome(sample, chr_id, dump_filename, args, read_groups)
+    # as above: output files of this chromosome are closed when the call returns, only then it is marked as processed
+    open(reads_processed_lock_file_name(dump_filename, chr_id), "w").close()
+    return result
+
+
+def construct_models_for_chromosome(sample, chr_id, dump_filename, args, read_groups):
     logger.info("Processing chromosome " + chr_id)
     construct_models = not args.no_model_construction
     # class-level caches must not outlive a chromosome of a sample (same process is reused when threads == 1)
@@ -313,7 +327,6 @@ def construct_models_in_parallel(sample, chr_id, dump_filename, args, read_group
         aggregator.transcript_model_global_counter.dump()
         transcript_stat_counter.dump(transcript_stat_file)
     logger.info("Finished processing chromosome " + chr_id)
-    open(lock_file, "w").close()
 
     return aggregator.read_stat_counter, transcript_stat_counter
 
